@@ -352,7 +352,7 @@ fn client_histories(ctx: &mut Ctx, cases: u32) {
             let ops = [Op::Oneway(*a), Op::Call(*b)];
             ctx.case(Some(hash64(&ops[..])));
             ctx.class("client:oneway-then-call(all pairs)");
-            if let Err(f) = run_client_history(&addr, &ops) {
+            if let Err(f) = pt::guard(|| run_client_history(&addr, &ops)) {
                 ctx.violation(&f.key, &f.what, "c04-client", json!({"ops": op_json(&ops)}));
             }
         }
